@@ -42,6 +42,15 @@ pub enum Call {
     IncB,
     /// reset() of a (possibly finished) bar
     Reset,
+    /// the next fallible terminal call fails once
+    FaultNext,
+    /// yield until the steady-tick thread has ticked once more than it has by now (needs a timed wait
+    /// that fires: a no-op when the execution's timeout budget is 0)
+    AwaitNextTick,
+    /// enable_steady_tick(Duration::MAX)
+    EnableMax,
+    /// a getter on the bar (panics if the bar's lock is poisoned)
+    Getters,
     /// yield until a frame has been painted since this call started (someone else must paint it);
     /// time goes by while waiting (the clock is read once per yield)
     AwaitFrame,
@@ -103,7 +112,7 @@ impl Program {
         v
     }
     pub fn uses_ticker(&self) -> bool {
-        self.threads.iter().flatten().any(|c| matches!(c, Call::Enable | Call::EnableShort))
+        self.threads.iter().flatten().any(|c| matches!(c, Call::Enable | Call::EnableShort | Call::EnableMax))
     }
 }
 
@@ -188,6 +197,10 @@ pub fn programs_for(family: &str, tier: &str) -> Vec<Program> {
                     }
                 }
                 v.push(Program { hz: false, start_hidden: false, no_len: false, family: "C08", multi: false, ticker: true, share: Share::Clone, threads: vec![vec![Call::Finish, Call::Reset, en, Call::AwaitTick]] });
+                // one failed terminal call during a draw of the ticker does not end the ticker
+                v.push(Program { hz: false, start_hidden: false, no_len: false, family: "C08", multi: false, ticker: false, share: Share::Clone, threads: vec![vec![Call::FaultNext, en, Call::AwaitTick, Call::AwaitNextTick]] });
+                // disable/replace after finish: the old ticker is really gone (after a reset manual ticks draw again)
+                v.push(Program { hz: false, start_hidden: false, no_len: false, family: "C08", multi: false, ticker: false, share: Share::Clone, threads: vec![vec![en, Call::Finish, Call::Disable, Call::Reset, Call::Tick]] });
                 // steady tick enabled while the bar is still hidden; it gets its terminal / its MultiProgress afterwards
                 v.push(Program { hz: false, start_hidden: true, no_len: false, family: "C08", multi: false, ticker: false, share: Share::Clone, threads: vec![vec![en, Call::SetTarget, Call::AwaitTick]] });
                 v.push(Program { hz: false, start_hidden: true, no_len: false, family: "C08", multi: false, ticker: false, share: Share::Clone, threads: vec![vec![en], vec![Call::SetTarget, Call::AwaitTick]] });
@@ -239,6 +252,22 @@ pub fn programs_for(family: &str, tier: &str) -> Vec<Program> {
             // increments while a ticker is installed and while the bar sits in a MultiProgress
             v.push(Program { hz: false, start_hidden: false, no_len: false, family: "L07", multi: true, ticker: false, share: Share::Clone, threads: vec![vec![Call::Inc(1), Call::Inc(2)], vec![Call::Inc(4)]] });
             v.push(Program { hz: false, start_hidden: false, no_len: false, family: "L07", multi: false, ticker: true, share: Share::Clone, threads: vec![vec![Call::Inc(1)], vec![Call::Inc(4), Call::Dec(2)]] });
+        }
+        "L18" => {
+            // a terminal failure while a steady ticker (also one with a huge interval) draws: no panic, no poisoned lock
+            for en in [Call::Enable, Call::EnableShort, Call::EnableMax] {
+                v.push(Program { hz: false, start_hidden: false, no_len: false, family: "L07", multi: false, ticker: false, share: Share::Clone, threads: vec![vec![Call::FaultNext, en, Call::AwaitTick, Call::Getters, Call::Msg, Call::Getters]] });
+                v.push(Program { hz: false, start_hidden: false, no_len: false, family: "L07", multi: true, ticker: false, share: Share::Clone, threads: vec![vec![Call::FaultNext, en, Call::AwaitTick, Call::Getters, Call::MpPrintln, Call::Getters]] });
+            }
+        }
+        "L04" => {
+            // finish / drop on a rate-limited MultiProgress while another thread draws with a later clock
+            // reading (every reading takes 5 ms): the final state is still painted
+            for fin in [Call::Finish, Call::Abandon] {
+                for other in [Call::TickB, Call::IncB, Call::Tick, Call::MpPrintln] {
+                    v.push(Program { hz: true, start_hidden: false, no_len: false, family: "L02", multi: true, ticker: false, share: Share::Clone, threads: vec![vec![fin], vec![other]] });
+                }
+            }
         }
         "L05" => {
             // a 1 ms steady ticker on a 20 Hz target while every clock reading takes 5 ms: after a direct
@@ -366,7 +395,7 @@ pub fn programs_for(family: &str, tier: &str) -> Vec<Program> {
         !(all.contains(&Call::MpRemove) && all.iter().any(|c| matches!(c, Call::MpInsertBefore | Call::MpInsertAfter)))
     });
     // loom supports 5 threads per execution (main included); every enable_steady_tick spawns one
-    v.retain(|p: &Program| 1 + p.threads.len() + p.ticker as usize + p.threads.iter().flatten().filter(|c| matches!(c, Call::Enable | Call::EnableShort)).count() <= 5);
+    v.retain(|p: &Program| 1 + p.threads.len() + p.ticker as usize + p.threads.iter().flatten().filter(|c| matches!(c, Call::Enable | Call::EnableShort | Call::EnableMax)).count() <= 5);
     v
 }
 
@@ -385,6 +414,8 @@ struct Shared {
     enable_mark: AtomicU64,
     /// 1 + terminal calls made when another thread saw is_hidden() == true (0 = never seen)
     hidden_seen_at: AtomicU64,
+    /// timed waits allowed to fire in this execution
+    timeouts: AtomicU64,
 }
 
 #[derive(Clone)]
@@ -455,6 +486,31 @@ fn do_call(c: Call, pb: &ProgressBar, w: &World, sh: &Shared) {
             clock::set_step_ns(5_000_000);
             sh.enable_mark.store(sh.ticker_ticks.load(Ordering::SeqCst), Ordering::SeqCst);
             pb.enable_steady_tick(Duration::from_millis(1))
+        }
+        Call::AwaitNextTick => {
+            if sh.timeouts.load(Ordering::SeqCst) > 0 {
+                let mark = sh.ticker_ticks.load(Ordering::SeqCst);
+                let mut spins = 0;
+                while sh.ticker_ticks.load(Ordering::SeqCst) == mark {
+                    thread::yield_now();
+                    spins += 1;
+                    if spins > 300 {
+                        oracle("ticker: the steady-tick thread stopped ticking although the bar is unfinished and steady tick is enabled (300 yields, a timed wait was allowed to fire)".into());
+                    }
+                }
+            }
+        }
+        Call::FaultNext => {
+            let mut st = w.spy.st();
+            let k = st.fallible_calls;
+            st.fault = crate::term::Fault::Once(k);
+        }
+        Call::EnableMax => {
+            sh.enable_mark.store(sh.ticker_ticks.load(Ordering::SeqCst), Ordering::SeqCst);
+            pb.enable_steady_tick(Duration::MAX)
+        }
+        Call::Getters => {
+            let _ = (pb.position(), pb.message(), pb.is_finished(), pb.length());
         }
         Call::AwaitFrame => {
             let mark = w.spy.flushes();
@@ -580,11 +636,22 @@ fn do_call(c: Call, pb: &ProgressBar, w: &World, sh: &Shared) {
     }
 }
 
+loom::lazy_static! {
+    /// Touched on every clock reading while a program with a rate-limited target runs: the interposed
+    /// clock is plain memory, so the explorer would otherwise never reorder two readings.
+    static ref CLOCK_PROBE: loom::sync::atomic::AtomicUsize = loom::sync::atomic::AtomicUsize::new(0);
+}
+
+fn clock_hook() {
+    CLOCK_PROBE.fetch_add(1, Ordering::SeqCst);
+}
+
 fn oracle(msg: String) -> ! {
     panic!("ORACLE: {msg}");
 }
 
 pub fn execute(p: &Program, timeouts: usize, obs: &Obs) {
+    clock::set_read_hook(None);
     verif_sync::set_timeout_budget(timeouts);
     clock::set_step_ns(0);
     clock::reset();
@@ -599,6 +666,7 @@ pub fn execute(p: &Program, timeouts: usize, obs: &Obs) {
         ticks_after_finish: AtomicU64::new(0),
         enable_mark: AtomicU64::new(0),
         hidden_seen_at: AtomicU64::new(0),
+        timeouts: AtomicU64::new(timeouts as u64),
     });
     let has_enable_call = p.uses_ticker();
     let spy = Spy::new(30, 12, false);
@@ -606,7 +674,7 @@ pub fn execute(p: &Program, timeouts: usize, obs: &Obs) {
     let len_a = if p.no_len { None } else { Some(9) };
     let mk = |name: &str, sh: &Arc<Shared>| ProgressBar::with_draw_target(len_a, ProgressDrawTarget::hidden()).with_style(style(sh, !has_enable_call)).with_prefix(name.to_string()).with_finish(ProgressFinish::AndLeave);
     let world = if p.multi {
-        let mp = MultiProgress::with_draw_target(ProgressDrawTarget::term_like(spy.boxed()));
+        let mp = MultiProgress::with_draw_target(if p.hz { ProgressDrawTarget::term_like_with_hz(spy.boxed(), 255) } else { ProgressDrawTarget::term_like(spy.boxed()) });
         let a = if p.start_hidden { mk("a", &sh) } else { mp.add(mk("a", &sh)) };
         let b = mp.add(ProgressBar::with_draw_target(Some(9), ProgressDrawTarget::hidden()).with_style(ProgressStyle::with_template("{prefix}:{pos}").unwrap()).with_prefix("b").with_finish(ProgressFinish::AndLeave));
         a.tick();
@@ -619,6 +687,10 @@ pub fn execute(p: &Program, timeouts: usize, obs: &Obs) {
     };
     if p.ticker {
         world.a.enable_steady_tick(Duration::from_secs(3600));
+    }
+    if p.hz && p.multi {
+        clock::set_step_ns(5_000_000);
+        clock::set_read_hook(Some(clock_hook));
     }
     let world = Arc::new(world);
     let shared_ref: Arc<ProgressBar> = world.a.clone();
@@ -652,6 +724,15 @@ pub fn execute(p: &Program, timeouts: usize, obs: &Obs) {
     if let Some(v) = sh.violation.lock().unwrap().clone() {
         oracle(v);
     }
+    // rate-limited MultiProgress under a clock that moves with every reading: once finish()/abandon() has
+    // returned, the screen shows the bar's final position
+    if p.hz && p.multi && p.threads.iter().flatten().any(|c| matches!(c, Call::Finish | Call::Abandon)) {
+        let doc = spy.doc();
+        let want = format!("a:{}", world.a.position());
+        if !doc.iter().any(|r| r.starts_with(&want)) {
+            oracle(format!("final-state: finish()/abandon() returned but its final frame was not painted :: {:?}, position {}", doc, world.a.position()));
+        }
+    }
     // a bar that another thread has seen hidden makes no terminal call afterwards
     let seen = sh.hidden_seen_at.load(Ordering::SeqCst);
     if seen > 0 && spy.calls() + 1 != seen {
@@ -684,6 +765,15 @@ pub fn execute(p: &Program, timeouts: usize, obs: &Obs) {
             let enables = all.iter().filter(|c| matches!(c, Call::Enable | Call::EnableShort)).count() as u64 + p.ticker as u64;
             if ticker_ticks > (timeouts as u64 + 1) * enables.max(1) && enables > 0 {
                 oracle(format!("ticker: more ticks than wake-ups :: {ticker_ticks} ticks, {} timeouts fired, {enables} tickers", timeouts));
+            }
+            // after disable_steady_tick() (with no later enable) a manual tick() reaches the bar again
+            for t in &p.threads {
+                if let Some(d) = t.iter().rposition(|c| *c == Call::Disable) {
+                    let later = &t[d + 1..];
+                    if p.threads.len() == 1 && later.contains(&Call::Tick) && !later.iter().any(|c| matches!(c, Call::Enable | Call::EnableShort | Call::EnableMax | Call::Finish | Call::Abandon)) && sh.worker_tracker_ticks.load(Ordering::SeqCst) == 0 {
+                        oracle("ticker: a manual tick() after disable_steady_tick() does not advance the bar (a steady ticker still counts as installed)".into());
+                    }
+                }
             }
             if enables == 0 && ticker_ticks > 0 {
                 oracle("ticker: ticks from a steady-tick thread although steady tick was never enabled".into());
@@ -798,6 +888,7 @@ pub fn execute(p: &Program, timeouts: usize, obs: &Obs) {
     if finish_seen && p.ticker {
         obs.ticker_outlived_finish.fetch_add(1, Ordering::Relaxed);
     }
+    clock::set_read_hook(None);
 }
 
 /// Checks over all executions of one program.
